@@ -25,7 +25,9 @@ EXPLANATION = (
     'rendered by its get_hint_params (so the re-loaded mutation is the same '
     'mutation), and placeholders refuse to run; '
     'R-C13.1 also requires the models-import decision to be taken inside the loop over the rendered mutations when it tests a per-mutation value; '
-    'R-C13.6 combined expressions are rendered through a table covering every connector django\'s Combinable defines, never value.connector itself; R-C13.7 composite serialisers render their parts through serialize_to_python(), never %r / repr().')
+    'R-C13.6 combined expressions are rendered through a table covering every connector django\'s Combinable defines, never value.connector itself; R-C13.7 composite serialisers render their parts through serialize_to_python(), never %r / repr().'
+    ' '
+    "R-C13.6 second clause: every entry of the connector tables spells its connector the way django's Combinable produces it (operator of the non-reflected dunder or the method name, read from the installed Django source).")
 NOT_DECIDED = (
     'Semantic equality of the re-loaded mutations (same signature change, '
     'same SQL) for all values; validity of the rendered Python for every '
@@ -411,6 +413,18 @@ def django_combinable_connectors():
         ops = [PY_OPERATOR_OF_DUNDER[m] for m in producers.get(name, [])
                if m in PY_OPERATOR_OF_DUNDER]
         out[text] = ops[0] if ops else None
+    # every spelling that produces the connector with the operands in their
+    # written order: the operator of a non-reflected dunder, or a plain method
+    spellings = {}
+    for name, text in consts.items():
+        sp = set()
+        for m in producers.get(name, []):
+            if m in PY_OPERATOR_OF_DUNDER:
+                sp.add(PY_OPERATOR_OF_DUNDER[m])
+            elif not m.startswith('__'):
+                sp.add(m)
+        spellings[text] = sp
+    django_combinable_connectors.spellings = spellings
     return out
 
 
@@ -454,6 +468,32 @@ def r6_connector_vocabulary(ctx):
                         repr(c) for c in differing),
                     key='connector-verbatim')
     else:
+        # every entry of the tables spells its connector the way django
+        # produces it (operator of the non-reflected dunder, or the method)
+        spell = django_combinable_connectors.spellings
+        n_entries = 0
+        for k in cls.mro():
+            for name, v in k.class_attrs.items():
+                if not isinstance(v, ast.Dict):
+                    continue
+                for kk, vv in zip(v.keys, v.values):
+                    c, sp = const_str(kk), const_str(vv)
+                    if c is None or sp is None or c not in spell:
+                        continue
+                    n_entries += 1
+                    if sp in spell[c]:
+                        ctx.ok(f, '%s[%r] = %r rebuilds the connector' % (
+                            name, c, sp), vv)
+                    else:
+                        ctx.finding(f, vv, '%s maps the connector %r to %r, '
+                                    'but django produces %r through %s: the '
+                                    'hint loads and evaluates to a different '
+                                    'expression' % (
+                                        name, c, sp, c,
+                                        ' / '.join(sorted(spell[c])) or '?'),
+                                    key='connector-misspelt:%s' % c)
+        ctx.counts['R-C13.6 connector table entries checked against django'] \
+            = n_entries
         missing = sorted(set(conns) - covered)
         if missing:
             ctx.finding(f, None, 'no Python spelling for the connector(s) %s '
